@@ -51,7 +51,12 @@ def check_forward(case):
     nk = case.get("num", "float")
     if case["kind"] == "float":
         lat_o, lon_o = S.as_kind(lat, nk), S.as_kind(lon, nk)
-    got = cv.llh2xyz(lat_o, lon_o, S.as_kind(case["h"], nk), ell)
+    if case["ell"] == "grs80" and case["h"] == 0 and case.get("defaults"):
+        got = cv.llh2xyz(lat_o, lon_o)                                   # height 0 and GRS80 are the documented defaults
+    elif case["ell"] == "grs80" and case.get("defaults"):
+        got = cv.llh2xyz(lat_o, lon_o, ellht=S.as_kind(case["h"], nk))
+    else:
+        got = cv.llh2xyz(lat_o, lon_o, S.as_kind(case["h"], nk), ell)
     if not (isinstance(got, tuple) and len(got) == 3):
         raise Fail("llh2xyz did not return an (x, y, z) tuple", observed=repr(got))
     want = closed_form(lat, lon, case["h"], a, invf)
@@ -157,7 +162,7 @@ def _classes(case):
 
 forward_cases = st.fixed_dictionaries({
     "lat": S.whole_sometimes(lat_s), "lon": S.whole_sometimes(lon_s), "h": S.whole_sometimes(h_s), "ell": S.ellipsoid_spec(),
-    "kind": S.angle_kind, "num": S.num_kind})
+    "kind": S.angle_kind, "num": S.num_kind, "defaults": st.booleans()})
 inv_geo_cases = st.fixed_dictionaries({"lat": lat_s, "lon": lon_s, "h": h_s, "ell": S.ellipsoid_spec(), "num": S.num_kind})
 inv_direct_cases = st.fixed_dictionaries({
     "mode": st.sampled_from(["dir", "dir", "p"]),
